@@ -26,6 +26,14 @@ CHECKS = {
          "Generated concurrent histories (linearizable by construction, mutated, free, ill-formed) over four specifications; is_consistent compared in both directions with a brute-force search over all admissible total orders; returned serializations validated; ill-formed histories must be rejected and stay inconsistent.",
          "Trusted: brute-force oracle (60 lines) and the serialization matcher. Bounded to <= ~9 operations on <= 4 threads.",
          "property-based testing (proptest) with a brute-force reference oracle", "DESIGN.md section 5 / C08"),
+ "C10": ("exploration",
+         "Generated symmetric models checked by DFS with and without symmetry reduction against a reference reachability and brute-force orbits; representative() of generated actor-system states and every Rewrite/reindex implementation against the harness's own application of the stable sorting permutation.",
+         "Trusted: the harness's stable argsort and structural id mapping; symmetry of generated models is re-checked against all permutations.",
+         "property-based testing (proptest): metamorphic relation (with/without symmetry) + reference permutation oracle", "DESIGN.md section 5 / C10"),
+ "C15": ("exploration",
+         "Generated table-driven systems with every actor wrapped in each adapter; the unwrapping projection must be a bisimulation onto the reference interpreter of the unwrapped system (every reachable state and action within a bound); all executions of scripted Vec clients against the script-prefix law.",
+         "Trusted: reference interpreter (validated against the unwrapped actors by C06).",
+         "property-based testing (proptest): differential/bisimulation check against a reference interpreter", "DESIGN.md section 5 / C15"),
  "C14": ("exploration",
          "As C08 without real-time precedence for the sequential-consistency tester, plus lin => sc on every history and clone discipline of both testers.",
          "Trusted: brute-force oracle. Bounded history size.",
